@@ -45,4 +45,23 @@ CHECKS["C01"] = {
             "proved), the vrt runtime's futex model. Wait re-acquisition paths: oracle only (see coverage.partial).",
     "technique": "Coq inductive invariant over source-regenerated transition system + lock-step trace inclusion",
 }
+CHECKS["C12"] = {
+    "text": "Machine-checked invariants (Coq) over SemModel, the step-per-site model of nsync_semaphore_futex.c over a modelled kernel futex "
+            "with adversarial EINTR / EAGAIN / early-ETIMEDOUT returns, one owner and ANY number of posters, any schedule: count = #V-#P >= 0, "
+            "success only by a decrementing CAS (no free lunch), ETIMEDOUT only at/after the deadline, owner asleep => count 0 or a wake "
+            "pending (no lost post), solo termination within 3 steps.  CAS values/guards regenerated from the source; skeleton replayed in "
+            "lock-step (incl. the timespec passed to the kernel) against the real file on every run.",
+    "design_ref": "DESIGN.md section 4, C12",
+    "note": "The kernel futex is modelled, not verified (trusted base); replay samples schedules.",
+    "technique": "Coq inductive invariants over source-regenerated transition system + lock-step trace inclusion",
+}
+CHECKS["C15"] = {
+    "text": "Theorems (Coq) over SemModel for EVERY normalized deadline, any 64-bit seconds incl. before the epoch: no ASSERT failure "
+            "(C15_no_crash), an expired deadline yields the timeout result within 3 own steps (C15_expired_prompt), no early timeout "
+            "(C15_no_early_timeout); tied to the code by lock-step replay incl. the timespec handed to FUTEX_WAIT.  The entry points above "
+            "the semaphore are run on the REAL library and kernel (C and C++ builds) over the boundary deadline set, one child process per case.",
+    "design_ref": "DESIGN.md section 4, C15",
+    "note": "Upper plumbing (cv/mu/note/counter/wait_n loops) decided by the real-library grid, not a theorem (coverage.partial).",
+    "technique": "Coq proof over semaphore model + lock-step tie + real-library boundary grid in child processes",
+}
 NOT_APPLICABLE = {}
